@@ -467,6 +467,8 @@ func runBlackBox(r *hx.Result, cfg hx.Config, rng *rand.Rand, drv *model.Driver)
 	b.st = states[0]
 	special(b)
 	b.wsSizes(drv)
+	b.pipelines()
+	b.pubsubPayloads()
 	for _, st := range states {
 		b.st = st
 		b.reset()
